@@ -123,6 +123,31 @@ def raw_new_in_files(prog, files, dirs) -> List[str]:
     return out
 
 
+def raw_new_used_by(prog, quals) -> List[str]:
+    """new module/class-level definitions (as written, before normalisation) that the flagged functions mention as written"""
+    out = []
+    for q in quals:
+        f = prog.functions.get(q)
+        if f is None:
+            continue
+        m = f.module
+        new = set(raw_new_in_files(prog, [m.relpath], []))
+        if not new:
+            continue
+        try:
+            tree = ast.parse(m.source)
+        except SyntaxError:
+            continue
+        short = {n.split(".")[-1] for n in new}
+        for n in ast.walk(tree):
+            if isinstance(n, (ast.FunctionDef, ast.AsyncFunctionDef)) and n.name == f.name and abs(n.lineno - getattr(f.node, "lineno", n.lineno)) < 10 ** 6:
+                for x in ast.walk(n):
+                    nm = x.id if isinstance(x, ast.Name) else (x.attr if isinstance(x, ast.Attribute) else None)
+                    if nm in short and nm not in out:
+                        out.append(nm)
+    return out
+
+
 def new_structure(prog) -> Dict[str, Set[str]]:
     """-> {'funcs': quals of functions/methods not in the inventory, 'classes': quals of classes not in the inventory}"""
     if KNOWN is None:
@@ -236,6 +261,10 @@ def apply(eng, rep) -> None:
                 if any(fn.split("::")[-1] == x for xs in nn.values() for x in xs):
                     continue  # the report is ABOUT a new definition: the rule read that code itself, it did not trip over it
                 hits = [x for rel, xs in sorted(nn.items()) if os.path.dirname(rel) == d_ or rel == o["file"] for x in xs if x != "(new file)"] + [rel for rel, xs in sorted(nn.items()) if os.path.dirname(rel) == d_ and "(new file)" in xs]
+        if not hits:
+            # helpers / tables / constants of the change that the normaliser removed again: when a shape rule still objects to
+            # the function that used them, the mismatch may be the normaliser's (it reduced most of the change, not all of it)
+            hits = raw_new_used_by(prog, parts)
         if hits:
             o["verdict"] = "undecided"
             o["detail"] = "not decided: this path uses structure that is not in the checker's inventory (%s); against the known shape the rule would report: %s" % (", ".join(h.split(".")[-1] for h in hits[:4]), o["detail"][:300])
